@@ -19,7 +19,8 @@ from yowsup.layers.protocol_messages.protocolentities import TextMessageProtocol
 ID = "C17"
 LEVEL = "exploration"
 RULE = ("generated histories of 2-12 operations over 2-3 accounts with automatic trust on/off per account: message(from, to), "
-        "reinstall(account) (fresh profile directory: new identity, first login uploads new keys), restart(account); every operation "
+        "reinstall(account) (fresh profile directory: new identity, first login uploads new keys), restart(account), notify(owner, contact) "
+        "(the server's identity-change notification, answered by the library with a key-bundle fetch); every operation "
         "is settled before the next. After each message the model decides whether it must be delivered (the sender accepts the "
         "recipient's current identity and the recipient accepts the sender's: unknown, equal to the pin, or auto-trust) and the pins "
         "are read from each owner's SQLite store through a separate connection. Non-trivial = a reinstall followed by traffic in both "
@@ -223,6 +224,26 @@ def _run(case, out, w):
             if not clients[jid].connected():
                 out.fail("setup", "reinstalled_account_not_connected", {"jid": jid, "errors": [e[:2] for e in clients[jid].errors]})
                 return out
+        elif kind == "notify":
+            # the server announces "contact c changed its identity" to o; the library reacts by fetching c's key bundle
+            o = w.jids[op[1] % len(w.jids)]
+            others = [j for j in w.jids if j != o]
+            c = others[op[2] % len(others)]
+            if not clients[o].connected():
+                clients[o].connect()
+                A.settle(server, clients)
+            o_accepts = accepts(o, c)
+            before = len([1 for j, n in server.log if j == o and n.tag == "iq" and n["xmlns"] == "encrypt" and n["type"] == "get"])
+            server.q(o, A.N("notification", {"from": c, "id": "idchange-%d" % step, "type": "encrypt", "t": "1500000200"}, [A.N("identity")]))
+            if not A.settle(server, clients):
+                out.fail("drain", "queues_do_not_drain", {"step": step, "left": len(server.outq)})
+                return out
+            fetched = len([1 for j, n in server.log if j == o and n.tag == "iq" and n["xmlns"] == "encrypt" and n["type"] == "get"]) - before
+            out.label("identity_change_notification:" + ("changed" if pin[o].get(c) not in (None, w.version[c]) else "same_or_unknown"))
+            if fetched and o_accepts:
+                pin[o][c] = w.version[c]
+            if c in reinstalled:
+                traffic_after_reinstall.add((c, o))
         elif kind == "restart":
             jid = w.jids[op[1] % len(w.jids)]
             clients[jid].stop()
@@ -256,7 +277,8 @@ def shrink_candidates(case):
 def script_strategy():
     sel = st.integers(0, 5)
     send = st.tuples(st.just("send"), sel, sel).map(list)
-    op = st.one_of(send, send, send, send, st.tuples(st.just("reinstall"), sel).map(list), st.tuples(st.just("restart"), sel).map(list))
+    op = st.one_of(send, send, send, send, st.tuples(st.just("reinstall"), sel).map(list), st.tuples(st.just("restart"), sel).map(list),
+                   st.tuples(st.just("notify"), sel, sel).map(list))
 
     @st.composite
     def build(draw):
@@ -272,6 +294,10 @@ def _enum_basic():
         yield {"sub": "history", "accounts": 2, "autotrust": at, "seed": 1,
                "ops": [["send", 0, 0], ["send", 1, 0], ["reinstall", 1], ["send", 0, 0], ["send", 1, 0], ["restart", 0], ["send", 1, 0],
                        ["send", 0, 0], ["send", 0, 0]]}
+    for at in ([False, False], [True, False], [None, None]):
+        yield {"sub": "history", "accounts": 2, "autotrust": at, "seed": 3,
+               "ops": [["send", 0, 0], ["send", 1, 0], ["notify", 0, 0], ["send", 0, 0], ["reinstall", 1], ["notify", 0, 0], ["send", 0, 0],
+                       ["restart", 0], ["send", 0, 0], ["send", 1, 0]]}
     yield {"sub": "history", "accounts": 3, "autotrust": [False, False, True], "seed": 2,
            "ops": [["send", 0, 0], ["send", 0, 1], ["send", 2, 0], ["reinstall", 0], ["send", 0, 0], ["send", 0, 1], ["send", 1, 0], ["send", 2, 0],
                    ["restart", 1], ["send", 0, 0]]}
